@@ -1,4 +1,5 @@
 import KoordVerif.Model.C18
+import KoordVerif.Model.C18Usage
 import KoordVerif.Generated.C18
 /-
 Tie lemmas for C18: constants and guard structure extracted from /repo's current source
@@ -23,5 +24,32 @@ theorem tie_early_exits : C18.earlyExitGuards = 6 + 1 := by decide
 theorem tie_evict_loop_guards :
     C18.evictLoopGuards = ["continueEviction:return", "podFilter:continue"] ∧
     C18.evictInDryRunElse = true := by decide
+
+/-- the capacity table of `Model/C18Usage.lean`: the functions that obtain a capacity through
+    GetNodeRawAllocatableFromNode are exactly the five entries of `capUses` (all `CapKind.raw`), and
+    no function of the package reads `node.Status.Allocatable` except that getter (its fallback). -/
+theorem tie_capacity_table :
+    (∀ u ∈ capUses, u.goFunc ∈ C18.rawAllocatableCallers ∧ capKindOf u = CapKind.raw) ∧
+    C18.rawAllocatableCallers.length = capUses.length ∧
+    C18.statusAllocatableReaders = ["GetNodeRawAllocatableFromNode"] := by decide
+
+/-- getNodeUsage: the prod lookup table is stored and looked up through a key VARIABLE, and every
+    key the function formats is "<Namespace>/<Name>" — the pair `Key` of the model (`prodKeys`,
+    `countsAsProd_iff`). -/
+theorem tie_prod_key_shape :
+    C18.prodMapIndexKinds = ["var", "var"] ∧
+    C18.getNodeUsageSprintfs = ["%s/%s:Namespace,Name", "%s/%s:Namespace,Name"] := by decide
+
+/-- processOneNodePool: which detector cache each call gets, in source order — `runRound`:
+    filterRealAbnormal (node, prod), resetAll (low→node, prodLow→prod, bothLow→node),
+    markNormAll (node, prod); and the continueEvictionCond closure refers to BOTH caches
+    (`drained_node_detector_reset`: the prod pass resets the prod detector). -/
+theorem tie_detector_caches :
+    C18.detectorCacheUse =
+      ["filterRealAbnormalNodes:nodeAnomalyDetectors", "filterRealAbnormalNodes:prodAnomalyDetectors",
+       "resetNodesAsNormal:nodeAnomalyDetectors", "resetNodesAsNormal:prodAnomalyDetectors",
+       "resetNodesAsNormal:nodeAnomalyDetectors",
+       "tryMarkNodesAsNormal:nodeAnomalyDetectors", "tryMarkNodesAsNormal:prodAnomalyDetectors"] ∧
+    C18.continueCondCaches = ["nodeAnomalyDetectors", "prodAnomalyDetectors"] := by decide
 
 end KoordVerif.C18
